@@ -445,6 +445,14 @@ func c17(c *Ctx) {
 					if k, isC := constInt(a[len(a)-1]); isC {
 						lit, okLit = string(rune(k)), true
 					}
+				case name == "fmt.Fprintf" || name == "fmt.Fprint":
+					// fmt.Fprintf(&builder, format, ...): the same write, spelled through the io.Writer
+					if mi, isMI := a[0].(*ssa.MakeInterface); isMI && (strings.Contains(mi.X.Type().String(), "strings.Builder") || strings.Contains(mi.X.Type().String(), "bytes.Buffer")) && len(a) >= 2 {
+						lit, okLit = constString(a[1])
+						if okLit {
+							a = append([]ssa.Value{mi.X}, a[1:]...)
+						}
+					}
 				}
 				if !okLit {
 					continue
